@@ -208,9 +208,9 @@ def run_languagetool(plain, language, disable, enable,
             tex2txt.fatal('error running ' + repr(' '.join(lt_cmd))
                             + ' in directory ' + repr(cmdline.lt_directory))
 
-    out = out.decode(encoding='utf-8')
     try:
-        dic = json_decoder.decode(out)
+        # NB: a truncated answer may also end inside a UTF-8 sequence
+        dic = json_decoder.decode(out.decode(encoding='utf-8'))
     except:
         json_fatal('JSON root element')
     matches = json_get(dic, 'matches', list)
@@ -290,9 +290,9 @@ def run_textgears(plain):
     except:
         tex2txt.fatal('error connecting to "' + textgears_server + '"')
 
-    out = out.decode(encoding='utf-8')
     try:
-        dic = json_decoder.decode(out)
+        # NB: a truncated answer may also end inside a UTF-8 sequence
+        dic = json_decoder.decode(out.decode(encoding='utf-8'))
     except:
         json_fatal('JSON root element')
 
